@@ -1429,7 +1429,7 @@ fn base_modules() -> Vec<(String, String, String)> {
   out
 }
 
-/// `vh positions-gen --seed S --out FILE [--layouts N] [--generated N] [--max-bytes B] [--variants N]`
+/// `vh positions-gen --seed S --out FILE [--layouts N] [--generated N] [--max-bytes B] [--variants N] [--extra DIR]`
 /// One input per line: {"id","m","origin","layout","text"}.  For every base module: the original text and
 /// `--layouts` seeded layouts (cycling through the named layouts); the same for `--generated` generated
 /// modules and for `--variants` ill-typed variants of randomly chosen base modules.
@@ -1447,6 +1447,22 @@ pub fn gen(args: &[String]) {
   let mut counts: BTreeMap<String, usize> = BTreeMap::new();
   let mut rejected: BTreeMap<String, usize> = BTreeMap::new();
   let mut bases: Vec<(String, String, String)> = base_modules().into_iter().filter(|b| b.2.len() <= max_bytes).collect();
+  // witnesses of known findings (and any other hand-written inputs): `--extra DIR` reads DIR/C14-*.sam
+  if let Some(dir) = arg(args, "--extra") {
+    let mut files: Vec<_> = std::fs::read_dir(&dir)
+      .map(|d| d.filter_map(|e| e.ok()).map(|e| e.path()).collect::<Vec<_>>())
+      .unwrap_or_default()
+      .into_iter()
+      .filter(|p| {
+        let n = p.file_name().unwrap().to_string_lossy().to_string();
+        n.starts_with("C14-") && n.ends_with(".sam")
+      })
+      .collect();
+    files.sort();
+    for (k, f) in files.iter().enumerate() {
+      bases.push((format!("findings.W{k}"), f.to_string_lossy().to_string(), std::fs::read_to_string(f).unwrap()));
+    }
+  }
   let nbase = bases.len();
   // generated modules (kept only if they parse without syntax errors)
   let mut made = 0;
